@@ -266,6 +266,21 @@ fn interop_scripted<V: Fv, R: RefImpl>(seed: u64, tries: usize, heavy: &mut Shar
             }
         }
     }
+    // salts scripted to the corpus of extreme hash streams
+    let mut cfails = 0;
+    for (i, tag) in crate::corpus::H2P_EXTREME.iter() {
+        let plan = Plan { record: false, script: crate::corpus::h2p_salt(*i).to_vec(), ..Default::default() };
+        let (sigb, _, _) = crate::d_sign::sign_with_plan::<V>(crate::corpus::H2P_MSG, &sk, plan);
+        if let Some(b) = sigb {
+            if !R::verify(crate::corpus::H2P_MSG, &to_ref_sig(&b), &pkb) {
+                cfails += 1;
+                heavy.emit(honest_event::<V>(crate::corpus::H2P_MSG, &b, &pkb, tag));
+            }
+        } else {
+            cfails += 1;
+        }
+    }
+    light.emit(cross("ref-verifies-our-signatures-on-extreme-hash-streams", V::N, cfails == 0, &format!("{} of {} rejected", cfails, crate::corpus::H2P_EXTREME.len())));
     light.emit(cross("ref-verifies-our-scripted-signatures", V::N, fails == 0, &format!("{} of {} rejected ({} exact fits)", fails, sent, tight)));
 }
 
